@@ -40,6 +40,13 @@ def exact_family(chk, rng, n_cases, found):
             continue
         m = len(J)
         p = A.gen_params(rng, name, m)
+        if name == "ConFIG" and not R.well_conditioned(J, name, p):
+            # pinv(units) @ weights cancels exactly (e.g. antiparallel unit rows with weights summing to
+            # zero along them): the code normalises rounding noise there - a point of discontinuity,
+            # outside the property's "finite matrices on which the aggregator is continuous" reading;
+            # found by the thorough run with seed 11 on the unchanged tree, skipped and counted
+            chk.note("skipped_config_discontinuity")
+            continue
         c1, c2 = gen_c(rng, m), gen_c(rng, m)
         a, b = F(2) ** rng.randint(-3, 3), F(rng.randint(1, 7), 4)
         c3 = [a * x + b * y for x, y in zip(c1, c2)]
